@@ -46,7 +46,7 @@ fn main() {
     "cursor + return_hits=false is documented as unsupported and never generated".into(),
   ];
   let quick = ctx.quick();
-  let n = ctx.n(300, 6000);
+  let n = ctx.n(300, 60_000);
   ctx.run_cases("aggs", n, |rng: &mut Rng, l: &mut Local, scratch| {
     let n_docs = rng.urange(8, 40);
     let corpus = paging::gen_corpus_with(rng, n_docs, 4, false);
